@@ -782,6 +782,8 @@ class Hdf5Saver:
         h5gr, subpath = self.create_group_for_obj(path, obj)
         h5gr.attrs[ATTR_TYPE] = REPR_DTYPE
         name = getattr(obj, 'name', 'void')
+        if obj.kind in 'SU':
+            name = obj.str  # names like 'str96' are not understood by np.dtype()
         h5gr.attrs['name'] = name
         self.save(obj.descr, subpath + 'descr')
         return h5gr
